@@ -127,7 +127,7 @@ PROPS["C18"] = {
             "subs": [("syscall/unix/connect.rs", "libc::getpeername(", "crate::syscall::unix::verif_c18_conn::k_getpeername(", None),
                      ("syscall/unix/connect.rs", "libc::getsockopt(", "crate::syscall::unix::verif_c18_conn::k_getsockopt(", None)],
             "harnesses": ["c18_mode_connect", "c18_mode_accept", "c18_mode_accept4"],
-            "timeout": 600,
+            "timeout": 1800,
         },
     ],
 }
@@ -153,14 +153,17 @@ PROPS["C17"] = {
 
 PROPS["C17"]["groups"].append({
     "mounts": [("c16_io.rs", "syscall/unix/mod.rs")], "cfgs": ["ocv_nv3"],
-    "harnesses": ["c17_readv_3iov", "c17_writev_3iov", "c17_recvmsg_3iov", "c17_sendmsg_3iov"],
-    "timeout": 1500, "jobs": 2, "mem_gb": 30,
+    # 2 of the 4 entry points in the quick tier (one macro-generated, one hand-written hook); each is ~200 s of symbolic execution
+    "harnesses": ["c17_writev_3iov", "c17_recvmsg_3iov"],
+    "thorough_harnesses": ["c17_readv_3iov", "c17_sendmsg_3iov"],
+    "timeout": 2400, "timeout_thorough": 3400, "jobs": 2, "mem_gb": 30,
     "bounds": "3 caller iovecs of 0..=2 bytes, 2 scripted responses, blocking descriptor, no time limit, waits succeed; unwind 5",
 })
 PROPS["C16"]["groups"].append({
     "mounts": [("c16_io.rs", "syscall/unix/mod.rs")], "cfgs": ["ocv_nv3"],
-    "harnesses": ["c16_readv_3iov", "c16_writev_3iov", "c16_recvmsg_3iov", "c16_sendmsg_3iov"],
-    "timeout": 1500, "jobs": 2, "mem_gb": 30,
+    "harnesses": ["c16_writev_3iov", "c16_sendmsg_3iov"],
+    "thorough_harnesses": ["c16_readv_3iov", "c16_recvmsg_3iov"],
+    "timeout": 2400, "timeout_thorough": 3400, "jobs": 2, "mem_gb": 30,
     "bounds": "3 caller iovecs of 0..=2 bytes, 2 scripted responses, blocking descriptor, no time limit, waits succeed; unwind 5",
 })
 
@@ -464,7 +467,7 @@ PROPS["C08"] = {
                "the transfer inside corosensei itself (replaced by the model: no stack switch).",
     "assumptions": _CO_ASSUME,
     "groups": [
-        {"mounts": [("c09_requests.rs", "coroutine/suspender.rs")], "harnesses": ["c08_values_cross_the_boundary"], "timeout": 900},
+        {"mounts": [("c09_requests.rs", "coroutine/suspender.rs")], "harnesses": ["c08_return_in_first_step", "c08_one_yield_then_return", "c08_two_yields_then_return"], "timeout": 900, "jobs": 3},
     ],
 }
 PROPS["C23"] = {
@@ -494,7 +497,7 @@ PROPS["C07"]["groups"].append({
 # Properties claimed in MANIFEST.json: their quick checks were run from the committed tree on the unchanged
 # repository and are quiet. The other entries above are development harnesses (runnable through bin/check,
 # not claimed; reasons in not_applicable.py).
-CLAIMED = ["C03", "C07", "C08", "C09", "C14", "C16", "C17", "C18", "C19", "C20", "C21", "C25", "C26", "C28"]
+CLAIMED = ["C03", "C07", "C08", "C09", "C12", "C14", "C16", "C17", "C18", "C19", "C20", "C21", "C23", "C25", "C26", "C28"]
 
 
 # Coroutine / pool harness groups: listener calls are `dyn Listener`; without vtable restriction CBMC takes the coroutine's own
